@@ -68,6 +68,11 @@ def main(argv=None):
             from sa.selftest import bank
 
             st = bank.run_for_property(prop, jobs=min(16, (os.cpu_count() or 4)))
+            # ... and the independently written fixtures: every filed seeded change this check caught must still be caught, every filed
+            # behaviour-preserving change must leave it silent (patches that no longer apply to the current tree are skipped and listed)
+            fx_ = bank.run_fixtures_for_property(prop, jobs=min(16, (os.cpu_count() or 4)))
+            st["fixtures"] = {k: v for k, v in fx_.items() if k != "failed"}
+            st["failed"] = st["failed"] + fx_["failed"]
             if st["failed"]:
                 for f in st["failed"]:
                     print(f"ANALYSIS-ERROR selftest {f}")
